@@ -91,9 +91,60 @@ def _prove(which, targets):
     return dict(records=recs, functions=[extract.Source(rel).info(q) for rel, q in targets], instances=len(targets), planted=planted, selfchecks=sc)
 
 
+def dual_choi_records(src=None):
+    """E1-array: dual_channel on a Choi matrix exchanges the two tensor factors and conjugates every entry, for ALL input/output dimensions
+    (square and rectangular operator spaces); channel_dim and swap are seen through their contracts"""
+    import sympy as sp
+
+    from contracts import index_layer as IL
+    from vt import extract
+    from vt.pyvc import index_proofs as IP
+    from vt.pyvc.driver import verify_instance
+
+    src = src or extract.Source("toqito/channel_ops/dual_channel.py")
+    fn = src.function("dual_channel")
+    out = []
+    di, do = IP.atoms("d", 2)
+    for rect in (False, True):
+        di1, do1 = IP.atoms("e", 2) if rect else (di, do)
+
+        def mk(di1=di1, do1=do1, rect=rect):
+            J = IP.X_of((di * do, di1 * do1), "J")
+            return [J, [[di, do], [di1, do1]] if rect else [di, do]], {}, [sp.Ge(di * do, 2), sp.Ge(di1 * do1, 2)] + [sp.Ge(x, 1) for x in {di, do, di1, do1}]
+
+        contracts = {"channel_dim": IL.summary_channel_dim_choi([di, di1], [do, do1]), "swap": IL.summary_swap}
+        recs, ms = verify_instance("dual_channel", "dual_channel(Choi matrix), %s operator spaces, all dimensions" % ("rectangular" if rect else "square"), {"dual_channel": fn}, contracts, mk, (lambda a, k, di1=di1, do1=do1: IL.spec_dual_choi(a[0], [di, di1], [do, do1])), (lambda a, k, di1=di1, do1=do1: [[do, di], [do1, di1]]), atoms=list({di, do, di1, do1}))
+        for x in recs:
+            x["clean"] = True
+            if x["status"] != "discharged":
+                x["replay"] = [dict(clause="frame.generic", function="dual_channel", input_class="frame/dual_channel/choi", params=dict(module=M, fn="dual_channel", args=[dict(kind="choi", d_in=2, d_out=3, r=2, seed=1), dict(kind="array", v=[[2, 3], [2, 3]])]))]
+        out += recs
+    for i, x in enumerate(out):
+        x["_id"] = "dualchoi.%d" % i
+    return out
+
+
 def prove(tier, seed):
     return _prove("C04", TARGETS_C04)
 
 
 def prove_c05(tier, seed):
-    return _prove("C05", TARGETS_C05)
+    from vt import extract
+
+    out = _prove("C05", TARGETS_C05)
+    out["records"] = out["records"] + dual_choi_records()
+    src = extract.Source("toqito/channel_ops/dual_channel.py")
+    for old, new in (("swap(phi_op.conj(), dim=", "swap(phi_op, dim="), ("dim=[[d_in[0], d_out[0]], [d_in[1], d_out[1]]]", "dim=[[d_out[0], d_in[0]], [d_out[1], d_in[1]]]")):
+        try:
+            bad = [x for x in dual_choi_records(src.mutated(old, new)) if x["status"] != "discharged"]
+        except KeyError:
+            out["planted"]["anchors_missing"].append("dual_channel: " + old)
+            continue
+        out["planted"]["tried"] += 1
+        if bad:
+            out["planted"]["refuted"] += 1
+            out["planted"]["detail"].append({"mutant": "dual_channel: %s -> %s" % (old, new), "not_discharged": len(bad), "first": bad[0]["text"][:100]})
+        else:
+            out["planted"]["survivors"].append("dual_channel: " + old)
+    out["selfchecks"]["planted_bugs_all_refuted"] = {"ok": out["planted"]["tried"] == out["planted"]["refuted"], "detail": out["planted"]}
+    return out
